@@ -475,7 +475,7 @@ def gen_manifest(rng, hostile):
     keys = rng.sample(KEYS_OK, n)
     man = [(k, rng.choice(SOURCES[:6] + SOURCES[7:11])) for k in keys]
     if hostile:
-        k = rng.choice(['badkey', 'badkey', 'through', 'through_norm', 'method', 'conflink'])
+        k = rng.choice(['badkey', 'badkey', 'through', 'through_norm', 'method', 'conflink', 'conffile'])
         if k == 'badkey':
             man.insert(rng.randint(0, len(man)), (rng.choice(KEYS_BAD), rng.choice(SOURCES[:6])))
         elif k == 'through':
@@ -494,6 +494,13 @@ def gen_manifest(rng, hostile):
         elif k == 'conflink':
             man = [e for e in man if not e[0].startswith('conf')]
             man.append((rng.choice(['conf', './conf', 'conf/']), rng.choice(['myconf:link', SB + '/pkg/myconf:link'])))
+        elif k == 'conffile':
+            # the package file itself (conf/flowir_package.yaml or conf/dsl.yaml) given as a link inside a copied conf
+            man = [e for e in man if not e[0].startswith('conf')]
+            man.append((rng.choice(['conf', './conf', 'conf/']), rng.choice(['myconf:copy', 'myconf'])))
+            man.append((rng.choice(['conf/flowir_package.yaml', 'conf/dsl.yaml', './conf//flowir_package.yaml', 'conf/extra.yaml',
+                                    'conf/./dsl.yaml']),
+                        rng.choice(['src/f.txt:link', SB + '/pkg/src2/h.txt:link', 'src/f.txt:copy'])))
     seen = set()
     out = []
     for k, v in man:
@@ -503,14 +510,18 @@ def gen_manifest(rng, hostile):
     return out
 
 
-def manifest_classes(man):
-    """F18d: the target conf is a link"""
-    cl = []
+def package_file(dsl):
+    return os.path.join('conf', 'dsl.yaml' if dsl else 'flowir_package.yaml')
+
+
+def self_write_escape(man, dsl):
+    """independent oracle (F18d, fixed): a link target is <instance>/conf or the package file the deployment stores in
+    it, so that the deployment's own write would go through the link"""
     for k, v in man:
         method = v.rsplit(':', 1)[1] if ':' in v else 'copy'
-        if method == 'link' and k == 'conf':
-            cl.append('conf_target_is_a_link')
-    return cl
+        if method == 'link' and not os.path.isabs(k) and os.path.normpath(k) in ('conf', package_file(dsl)):
+            return True
+    return False
 
 
 def manifest_escape(target, man):
@@ -539,7 +550,7 @@ PACKAGING = ('FlowIRManifestSyntaxException', 'FlowIRManifestKeyIsAbsolutePath',
              'FlowIRManifestInvalidType', 'FlowIRManifestException')
 
 
-def run_manifest_case(ctx, raw_man, label):
+def run_manifest_case(ctx, raw_man, label, dsl=False):
     import experiment.model.frontends.flowir as F
     import experiment.model.storage as S
     import experiment.model.errors as E
@@ -549,8 +560,8 @@ def run_manifest_case(ctx, raw_man, label):
     try:
         man = [(sb.real(k), sb.real(v)) for k, v in raw_man]
         cman = [[sb.canonical(k), sb.canonical(v)] for k, v in man]
-        canon = {'manifest': cman}
-        cls = manifest_classes(man)
+        canon = {'manifest': cman, 'dsl': dsl}
+        cls = []
         ctx.case(canon, nontrivial=any(('..' in k.split('/')) or k.startswith('/') or '/' in k for k, _ in man) or
                  any(v.endswith(':link') for _, v in man))
         ctx.count('manifest:' + label)
@@ -567,7 +578,7 @@ def run_manifest_case(ctx, raw_man, label):
                                      manifestData={}, file_format='flowir')
         pkg = S.ExperimentPackage(conf, dict(man))
         try:
-            pkg.expandPackageToDirectory(sb.inst, 'flowir')
+            pkg.expandPackageToDirectory(sb.inst, 'dsl' if dsl else 'flowir')
             d_exc = None
         except BaseException as e:  # noqa
             d_exc = e
@@ -587,15 +598,22 @@ def run_manifest_case(ctx, raw_man, label):
                 ctx.fail(canon, 'a manifest with a target outside the instance directory (or inside a link target) passed validation', cls)
             if d_exc is None:
                 ctx.fail(canon, 'a manifest with a target outside the instance directory (or inside a link target) was deployed', cls)
+        if self_write_escape(man, dsl) and not isinstance(d_exc, E.FlowIRManifestException):
+            ctx.fail(canon, 'a manifest that makes conf or the package file inside it a link was not refused by the deployment '
+                            '(%s)' % dname, cls)
         if d_exc is None:
             missing = [k for k, _ in man if not os.path.lexists(os.path.join(sb.inst, k))]
             if missing:
                 ctx.fail(canon, 'deployment succeeded but targets %s do not exist in the instance' % missing, cls)
+            pf = os.path.join(sb.inst, package_file(dsl))
+            if os.path.islink(os.path.join(sb.inst, 'conf')) or os.path.islink(pf) or not os.path.isfile(pf):
+                ctx.fail(canon, 'deployment succeeded but %s is not a regular file of the instance' % package_file(dsl), cls)
         d_accept = not isinstance(d_exc, E.FlowIRManifestException) if d_exc is not None else True
         ctx.count('manifest:valid' if v_exc is None else 'manifest:rejected')
         ctx.count('manifest:deployed' if d_exc is None else ('manifest:deploy-refused' if not d_accept else 'manifest:deploy-os-error'))
         ctx.sample({'manifest': cman, 'validate': vname, 'deploy': dname}, limit=12)
-        term = '(%s, %s, %s)' % (clist(cman, lambda e: cpair(cstr(e[0]), cstr(e[1]))), cbool(v_exc is None), cbool(d_accept))
+        term = '(%s, %s, %s, %s)' % (clist(cman, lambda e: cpair(cstr(e[0]), cstr(e[1]))), cbool(dsl), cbool(v_exc is None),
+                                     cbool(d_accept))
         return (term, canon, {'validate': vname, 'deploy': dname})
     finally:
         pool.release(sb, changed)
@@ -623,7 +641,10 @@ CORPUS_MAN = [
     [('a', 'src:link'), ('a/.', 'src2:copy')],
     [('/abs', 'src')],
     [('bin', 'src'), ('data', 'src2:link'), ('conf', 'myconf:copy')],
-    [('conf', 'myconf:link')],                                                   # F18d (open)
+    [('conf', 'myconf:link')],                                                   # F18d
+    [('conf', 'myconf:copy'), ('conf/flowir_package.yaml', 'src/f.txt:link')],   # F18d (the package file itself is a link)
+    [('./conf/', SB + '/pkg/myconf:link')],
+    [('conf', 'myconf:copy'), ('conf/dsl.yaml', 'src/f.txt:link')],              # refused for a DSL package only
 ]
 
 
@@ -646,13 +667,13 @@ def _drive(ctx, tar_cases, stage_cases, man_cases, tar_terms, stage_terms, man_t
     for c in stage_cases:
         stage_terms.append(run_stage_case(ctx, c['source'], c['method'], c.get('via_job', True)))
     for c in man_cases:
-        man_terms.append(run_manifest_case(ctx, c['manifest'], c.get('label', 'gen')))
+        man_terms.append(run_manifest_case(ctx, c['manifest'], c.get('label', 'gen'), c.get('dsl', False)))
 
 
 def _compare(ctx, tar_terms, stage_terms, man_terms):
     for terms, checker, name in ((tar_terms, 'check_tar', 'C18 archives: StageReference check + created entries vs Path.Model.tar_check/created'),
                                  (stage_terms, 'check_stage', 'C18 copy/link: entry created by StageReference vs Path.Model.stage_name'),
-                                 (man_terms, 'check_man', 'C18 manifests: Manifest.validate / expandPackageToDirectory vs Path.Model.validate')):
+                                 (man_terms, 'check_man2', 'C18 manifests: Manifest.validate / expandPackageToDirectory vs Path.Model.validate / deploy_ok')):
         bad = ctx.model_mismatches(HEADER, [t[0] for t in terms], checker, chunk=120, name=checker)
         for i in bad:
             ctx.disagree(terms[i][1], terms[i][2], 'model computes otherwise (see %s)' % checker, name)
@@ -688,14 +709,14 @@ def run(ctx):
                           'via_job': i % 2 == 0})
     stage_cases = [{'source': s, 'method': m, 'via_job': (i + j) % 2 == 0}
                    for i, s in enumerate(STAGE_SOURCES) for j, m in enumerate(['copy', 'link', 'copyout'])]
-    man_cases = [{'manifest': m, 'label': 'corpus'} for m in CORPUS_MAN]
+    man_cases = [{'manifest': m, 'label': 'corpus', 'dsl': dsl} for m in CORPUS_MAN for dsl in (False, True)]
     for k in KEYS_OK + KEYS_BAD:
         for s in ('src', 'src2:link'):
             man_cases.append({'manifest': [(k, s)], 'label': 'single'})
     for i in range(120 if quick else 1500):
-        man_cases.append({'manifest': gen_manifest(rng, False), 'label': 'benign'})
+        man_cases.append({'manifest': gen_manifest(rng, False), 'label': 'benign', 'dsl': rng.random() < 0.3})
     for i in range(240 if quick else 3000):
-        man_cases.append({'manifest': gen_manifest(rng, True), 'label': 'hostile'})
+        man_cases.append({'manifest': gen_manifest(rng, True), 'label': 'hostile', 'dsl': rng.random() < 0.3})
     _explore(ctx, tar_cases, stage_cases, man_cases)
     ctx.count('cases', len(tar_cases) + len(stage_cases) + len(man_cases))
 
@@ -717,7 +738,7 @@ def replay(ctx, path):
         tar_cases.append({'members': [(unc(n), k, unc(l)) for n, k, l in c['members']], 'via_job': c.get('via_job', True),
                           'pre_link': tuple(c['pre_link']) if c.get('pre_link') else None, 'label': 'replay'})
     elif 'manifest' in c:
-        man_cases.append({'manifest': [(unc(k), unc(v)) for k, v in c['manifest']], 'label': 'replay'})
+        man_cases.append({'manifest': [(unc(k), unc(v)) for k, v in c['manifest']], 'label': 'replay', 'dsl': c.get('dsl', False)})
     elif 'source' in c:
         stage_cases.append({'source': c['source'].split('/sb/', 1)[1], 'method': c['method'], 'via_job': c.get('via_job', True)})
     _ = canon_root
